@@ -7,6 +7,7 @@
 //! position the batch path states.
 
 use blake2::{Blake2b, Digest, digest::consts::U32};
+use crate::c09_util::Label;
 use mc_core::{Report, catch};
 use mithril_stm::{
     AggregateSignature, AggregateSignatureType, AggregateVerificationKey, AncillaryGenesisData, AncillaryProofInput, Clerk, Initializer,
@@ -136,7 +137,8 @@ pub enum Verdict {
     Undecodable,
 }
 
-pub fn eval(rep: &mut Report, w: &World, k: usize, agg: &Value, label: &str) -> Verdict {
+pub fn eval<'a>(rep: &mut Report, w: &World, k: usize, agg: &Value, label: impl Into<Label<'a>>) -> Verdict {
+    let label: Label = label.into();
     rep.eval();
     let Ok(real) = serde_json::from_value::<AggregateSignature<D>>(agg.clone()) else {
         rep.outcome("stm-aggregate:undecodable");
@@ -161,7 +163,7 @@ pub fn eval(rep: &mut Report, w: &World, k: usize, agg: &Value, label: &str) -> 
     if verdict != Verdict::Accepted {
         return verdict;
     }
-    let replay = || json!({"part": "stm-aggregate", "n": w.n, "k": k, "aggregate": agg, "made_by": label});
+    let replay = || json!({"part": "stm-aggregate", "n": w.n, "k": k, "aggregate": agg, "made_by": label.to_string()});
     let sigs = agg["signatures"].as_array().cloned().unwrap_or_default();
     let indices: Vec<u64> = agg["batch_proof"]["indices"].as_array().map(|a| a.iter().map(|i| i.as_u64().unwrap_or(u64::MAX)).collect()).unwrap_or_default();
     if sigs.len() != indices.len() {
@@ -189,8 +191,8 @@ pub fn eval(rep: &mut Report, w: &World, k: usize, agg: &Value, label: &str) -> 
         };
         rep.violation(key, format!("aggregate signature verifies although {what}; made by: {label}"), replay());
     }
-    if all_true && label != "honest" && rep.extras.get("stm_aggregate_sample_accepted_mutant").is_none() {
-        rep.extra("stm_aggregate_sample_accepted_mutant", json!({"made_by": label, "n": w.n, "positions": indices}));
+    if all_true && !label.is_honest() && rep.extras.get("stm_aggregate_sample_accepted_mutant").is_none() {
+        rep.extra("stm_aggregate_sample_accepted_mutant", json!({"made_by": label.to_string(), "n": w.n, "positions": indices}));
     }
     verdict
 }
@@ -223,10 +225,17 @@ pub fn mutations(w: &World, subset: &[usize], honest: &Value) -> Vec<(String, Va
             let mut x = honest.clone();
             x["batch_proof"]["indices"].as_array_mut().unwrap().swap(j, j + 1);
             push(format!("indices[{j},{}] swapped", j + 1), x);
-            let mut x = honest.clone();
-            x["signatures"].as_array_mut().unwrap().swap(j, j + 1);
-            push(format!("signatures[{j},{}] swapped", j + 1), x);
         }
+    }
+    for j in 0..sigs.len().saturating_sub(1) {
+        let mut x = honest.clone();
+        x["signatures"].as_array_mut().unwrap().swap(j, j + 1);
+        push(format!("signatures[{j},{}] swapped", j + 1), x);
+    }
+    for j in 0..sigs.len() {
+        let mut x = honest.clone();
+        x["signatures"].as_array_mut().unwrap().remove(j);
+        push(format!("signature[{j}] dropped"), x);
     }
     // path nodes
     for v in 0..values.len() {
@@ -255,7 +264,7 @@ pub fn mutations(w: &World, subset: &[usize], honest: &Value) -> Vec<(String, Va
         let lottery = sigs[j][0]["indexes"].clone();
         let lottery_idx: Vec<usize> = lottery.as_array().map(|a| a.iter().map(|i| i.as_u64().unwrap_or(0) as usize).collect()).unwrap_or_default();
         let stake = sigs[j][1][1].as_u64().unwrap_or(0);
-        for s2 in [stake + 1, stake.saturating_sub(1), 0, u64::MAX] {
+        for s2 in [stake.wrapping_add(1), stake.wrapping_sub(1), 0, u64::MAX] {
             let mut x = honest.clone();
             x["signatures"][j][1][1] = json!(s2);
             push(format!("signature[{j}].stake:={s2}"), x);
@@ -358,7 +367,7 @@ pub fn sweep_one(n: usize, mask: u32, depth: usize) -> Report {
             if depth >= 2 {
                 for (label2, m2) in mutations(&w, &subset, m) {
                     rep.add_extra("stm_aggregate_paired_mutants", 1);
-                    eval(&mut rep, &w, k, &m2, &format!("{label} ; {label2}"));
+                    eval(&mut rep, &w, k, &m2, Label(label, &label2));
                 }
             }
         }
